@@ -140,7 +140,9 @@ class GotranODECodePrinter(BaseGotranODECodePrinter):
             d[i.components].append(i)
 
         text = ""
-        for components, intermediates in d.items():
+        # The assignments of the default component have no header, so they
+        # have to come first (otherwise they end up in the preceding component)
+        for components, intermediates in sorted(d.items(), key=lambda item: item[0] != ("",)):
             text += start_odeblock("expressions", names=components, is_expression=True) + "\n"
             text += "\n".join([print_assignment(i, doprint=self.doprint) for i in intermediates])
             text += "\n\n"
